@@ -1,16 +1,22 @@
 // C08 — tangent-space differentiation returns the true derivatives.
 //
 // E: a family of functions with closed-form right-derivatives and Hessians (group product, triple product, log,
-//    action, rminus, exp(a)*g, exp(a)*g*v, v.log(g), dot / scale / triple scalar products, integer-coefficient
-//    polynomial maps) on the argument types {SO3d, SE2d, SE3d, Bundle<SO3d,Vector3d>, Vector3d, VectorXd, double,
-//    std::vector<SE2d>}; for every (function, argument-type tuple) the space is
+//    s*log, action, s*action, rminus, exp(a)*g, exp(a)*g*v, v.log(g), dot / scale scalar products, integer-coefficient
+//    polynomial maps R^n -> R^m) on the argument types {SO3d, SE2d, SE3d, Bundle<SO3d,Vector3d>, Vector3d, VectorXd,
+//    double, std::vector<SE2d>}. The members that are instantiated are listed in the t*.cpp files (26 (function,
+//    argument-type tuple) spaces with 1, 2 and 3 arguments; the list is bounded by the compile-time budget of the
+//    check: < 90 s per translation unit, < 4 min for the whole check). For every member the space is
 //        evaluation points (full product of small per-argument alphabets, restricted by the premises of the statement)
-//      x const/non-const mask (2^n) x index form (plain call + every non-empty ascending index_sequence: 2^n)
+//      x const/non-const mask of the references in wrt(...) (all 2^n)
+//      x index form (plain call + every non-empty ascending index_sequence: 2^n)
 //      x variant (K in {0,1,2} x {Numerical, Default on a plain functor, Analytic, Default on a functor with
-//        jacobian()/hessian()}).
+//        jacobian()/hessian()}; see Space::add_cfg for the three combinations that are left out).
 // O: closed forms evaluated in long double on the *reference* algebra of mc/ref.hpp (Ad_ref, ad_ref, dr_exp_ref = phi1,
 //    complex-step d2_exp_ref, documented group matrices), from the stored coefficients of the actual argument objects.
 //    The closed forms are validated at the start of every space by central differences (oracle self-check).
+//    Index subset = columns of the full call; K = 0 = f(x) bitwise; Analytic / Default-with-derivatives = the functor's
+//    own matrices bitwise; arguments after the call within 1e-15 x largest coefficient (bitwise for const&).
+// Non-template parts (alphabets, premises, judgements, tolerances) are in c08_common.cpp.
 #pragma once
 #include "bind.hpp"
 
